@@ -127,6 +127,19 @@ class FV:
             out.append((self.res.resolve(atom, branch), pol, atom))
         return out
 
+    def controlling(self, node: int, within: Optional[Set[int]] = None, skip_raising: bool = False) -> List[Tuple[int, bool]]:
+        """Branch outcomes every path to `node` has taken; optionally only tests inside `within`, optionally without
+        the fall-through of raising guards (`if bad: raise`)."""
+        raising = {n.id for n, _, _, _ in self.raising_guards()} if skip_raising else set()
+        out = []
+        for d, pol in self.cfg.controlling(node):
+            if within is not None and d not in within:
+                continue
+            if d in raising:
+                continue
+            out.append((d, pol))
+        return out
+
     def rforall_at(self, node: int) -> List[Tuple[int, ast.AST, bool, ast.AST]]:
         out = []
         for head, atom, pol, branch in self.cfg.forall_at(node):
